@@ -57,12 +57,67 @@ fn main() {
         writeln!(code, "    async fn {m}(&self, req: &mut s3s::S3Request<s3s::dto::{i}>) -> s3s::S3Result<()> {{ self.op_hook(\"{m}\", req.credentials.as_ref()) }}").unwrap();
     }
     writeln!(code, "}}").unwrap();
-    // default output constructors (overridable by hand-written ones in outputs.rs through the macro below)
+    // output constructors: Default::default(), or - when the backend script says "fill" - every member of a simple type set to a
+    // recognisable value (strings "F-<field>", timestamps 2018-01-09T20:51:21Z, integers 7, booleans true), so that the C03
+    // witnesses can look for each header-bound member in the response
+    let d = format!("{repo}/crates/s3s/src/dto/generated.rs");
+    println!("cargo:rerun-if-changed={d}");
+    let dto = std::fs::read_to_string(&d).unwrap();
+    let mut alias = std::collections::BTreeMap::new();
+    let mut strnew = std::collections::BTreeSet::new();
+    for l in dto.lines() {
+        if let Some(r) = l.strip_prefix("pub type ") {
+            if let Some((a, b)) = r.trim_end_matches(';').split_once(" = ") {
+                alias.insert(a.trim().to_string(), b.trim().to_string());
+            }
+        }
+        if let Some(r) = l.strip_prefix("pub struct ") {
+            if let Some(n) = r.strip_suffix("(Cow<'static, str>);") {
+                strnew.insert(n.trim().to_string());
+            }
+        }
+    }
+    let resolve = |t: &str| -> String {
+        let mut t = t.to_string();
+        for _ in 0..8 {
+            match alias.get(&t) {
+                Some(u) => t = u.clone(),
+                None => break,
+            }
+        }
+        t
+    };
+    let mut filled_table = String::new();
     writeln!(code, "pub mod default_outputs {{").unwrap();
     for (m, _, o) in methods(&s3, "S3Request<") {
-        writeln!(code, "    #[allow(dead_code)] pub fn {m}(_s: &serde_json::Value) -> s3s::dto::{o} {{ Default::default() }}").unwrap();
+        let mut sets = String::new();
+        let mut filled = String::new();
+        if let Some(i) = dto.find(&format!("\npub struct {o} {{")) {
+            let body = &dto[i..];
+            let body = &body[..body.find("\n}\n").unwrap_or(body.len())];
+            for l in body.lines() {
+                let l = l.trim();
+                let Some(r) = l.strip_prefix("pub ") else { continue };
+                let Some((f, ty)) = r.trim_end_matches(',').split_once(": ") else { continue };
+                let Some(inner) = ty.strip_prefix("Option<").and_then(|x| x.strip_suffix('>')) else { continue };
+                let rt = resolve(inner);
+                let (val, kind) = match rt.as_str() {
+                    "String" => (format!("\"F-{f}\".to_owned()"), "string"),
+                    "Timestamp" => ("s3s::dto::Timestamp::from(time::OffsetDateTime::from_unix_timestamp(1_515_531_081).unwrap())".to_string(), "timestamp"),
+                    "i32" | "i64" => ("7".to_string(), "int"),
+                    "bool" => ("true".to_string(), "bool"),
+                    x if strnew.contains(x) => (format!("s3s::dto::{x}::from(\"F-{f}\".to_owned())"), "string"),
+                    _ => continue,
+                };
+                writeln!(sets, "            o.{f} = Some({val});").unwrap();
+                write!(filled, "(\"{f}\", \"{kind}\"), ").unwrap();
+            }
+        }
+        writeln!(code, "    #[allow(dead_code, unused_mut)] pub fn {m}(s: &serde_json::Value) -> s3s::dto::{o} {{\n        let mut o = s3s::dto::{o}::default();\n        if s.get(\"fill\").is_some() {{\n{sets}        }}\n        o\n    }}").unwrap();
+        writeln!(filled_table, "    (\"{m}\", &[{filled}]),").unwrap();
     }
     writeln!(code, "}}").unwrap();
+    writeln!(code, "pub const FILLED: &[(&str, &[(&str, &str)])] = &[\n{filled_table}];").unwrap();
     let mut names = String::new();
     for (m, _, _) in methods(&s3, "S3Request<") {
         write!(names, "\"{m}\", ").unwrap();
